@@ -693,6 +693,12 @@ class Analyzer:
             out = []
             for el in e.elts:
                 x = self.self_attr(el, selfname)
+                # `getattr(self, "_mut_x", 0)`: the component `_mut_x` (idiom of the setters)
+                if x is None and isinstance(el, ast.Call) and isinstance(el.func, ast.Name) \
+                        and el.func.id == "getattr" and len(el.args) >= 2 \
+                        and isinstance(el.args[0], ast.Name) and el.args[0].id == selfname \
+                        and isinstance(el.args[1], ast.Constant) and isinstance(el.args[1].value, str):
+                    x = el.args[1].value
                 out.append(x if x is not None else "<expr:" + ast.unparse(el) + ">")
             return out
         if isinstance(e, ast.IfExp):
